@@ -2,7 +2,10 @@ package main
 
 import (
 	"fmt"
+	"go/constant"
+	"go/token"
 	"go/types"
+	"reflect"
 	"strings"
 
 	"golang.org/x/tools/go/ssa"
@@ -24,7 +27,8 @@ var c19LogSafe = map[string]string{
 
 var c19StdSafe = []string{"fmt.", "strings.", "strconv.", "encoding/hex.", "time.Now", "(time.Time).", "runtime.Caller", "runtime.FuncForPC", "(*runtime.Func).", "runtime.Callers", "runtime.CallersFrames", "(*runtime.Frames).", "path.", "path/filepath.", "bytes.",
 	"reflect.TypeOf", "reflect.ValueOf", "(reflect.Value).Interface", "(reflect.Value).Kind", "(reflect.Value).IsNil", "(reflect.Value).Len", "(reflect.Value).Index", "(reflect.Value).Type", "(reflect.Value).String", "(reflect.Value).Pointer",
-	"(reflect.Value).Bool", "(reflect.Value).Int", "(reflect.Value).Uint", "(reflect.Value).Float", "(reflect.Value).Complex", "(reflect.Value).NumField", "(reflect.Value).Field", "(reflect.Value).IsValid", "math."}
+	"(reflect.Value).Bool", "(reflect.Value).Int", "(reflect.Value).Uint", "(reflect.Value).Float", "(reflect.Value).Complex", "(reflect.Value).NumField", "(reflect.Value).Field", "(reflect.Value).IsValid", "math.",
+	"(reflect.Value).CanInterface", "(reflect.Value).CanAddr", "(reflect.Value).CanSet", "(reflect.Value).IsZero", "(reflect.Value).NumMethod", "(reflect.Value).MapKeys", "(reflect.Value).MapIndex", "(reflect.Value).MapRange", "(*reflect.MapIter).", "(reflect.Value).Elem", "(reflect.Value).Cap", "(reflect.Value).Bytes", "(reflect.Value).UnsafePointer", "(reflect.Value).CanInt", "(reflect.Value).CanUint", "(reflect.Value).CanFloat", "(reflect.Value).CanComplex"}
 
 type logClassifier struct {
 	p    *Prog
@@ -56,6 +60,14 @@ func (lc *logClassifier) safeFn(f *ssa.Function) bool {
 		if _, isRet := i.(*ssa.Return); isRet {
 			return // value-returning helpers are fine (caller uses the value for logging only)
 		}
+		// a helper whose every instruction is log-only may shield its caller from its own panics: a deferred closure that
+		// is itself log-only (recover, formatting, assignments to the helper's locals and results). Only here — in the
+		// wrapper or a tainted region a recover would also swallow panics of the mocked function's callback.
+		if d, isDefer := i.(*ssa.Defer); isDefer {
+			if mc, isMc := d.Call.Value.(*ssa.MakeClosure); isMc && len(d.Call.Args) == 0 && lc.safeFn(mc.Fn.(*ssa.Function)) {
+				return
+			}
+		}
 		if w := lc.instr(i); w != "" {
 			ok = false
 			lc.why[f] = shortName(f) + ": " + w
@@ -74,7 +86,7 @@ func (lc *logClassifier) instr(i ssa.Instruction) string {
 	p := lc.p
 	switch x := i.(type) {
 	case *ssa.Store:
-		if !isLocalAddr(x.Addr) {
+		if !isLocalAddr(x.Addr) && !isFrameCapture(i.Parent(), x.Addr) {
 			return "store to non-local memory at " + p.Pos(posOf(i))
 		}
 	case *ssa.MapUpdate:
@@ -492,6 +504,24 @@ func c19(c *Ctx) {
 					}
 				})
 			}
+			if !okOrig && calleeName(f.Common()) != "dynamic" {
+				// the reflect.Value of the callback computed once at construction and captured: the captured variable
+				// is assigned exactly once, with reflect.ValueOf(<the interceptor's own input>)
+				if fv, isFv := originOfFreeVar(f.Call.Args[0]); isFv {
+					if sv := capturedValue(interceptor, cl, fv); sv != nil {
+						if vo, ok := peel(sv).(*ssa.Call); ok && calleeName(vo.Common()) == "reflect.ValueOf" {
+							n, okB := 0, true
+							for _, a := range origins(vo.Call.Args[0]) {
+								n++
+								if a.Kind != "param" {
+									okB = false
+								}
+							}
+							okOrig = okB && n > 0
+						}
+					}
+				}
+			}
 			r.Check(okOrig, "C19.R2", cons+" calls the captured original", p.Pos(posOf(f)), "callee is the captured callback", "the wrapper calls something other than the captured original callback")
 			cn := calleeName(f.Common())
 			if cn == "(reflect.Value).CallSlice" || cn == "(reflect.Value).Call" {
@@ -499,6 +529,14 @@ func c19(c *Ctx) {
 				for _, g := range guardsAt(f.Block()) {
 					if c2, ok := g.Cond.(*ssa.Call); ok && c2.Call.IsInvoke() && c2.Call.Method.Name() == "IsVariadic" {
 						variadicTrue, known = g.Pol, true
+					}
+					// the flag computed once at construction and captured: the captured variable is assigned exactly
+					// once, with Type.IsVariadic() (possibly and-ed with "the type is a function", which always holds
+					// where a wrapper exists)
+					if fv, isFv := originOfFreeVar(g.Cond); isFv {
+						if sv := capturedValue(interceptor, cl, fv); sv != nil && isExactVariadicFlag(sv) {
+							variadicTrue, known = g.Pol, true
+						}
 					}
 				}
 				want := cn == "(reflect.Value).CallSlice"
@@ -654,6 +692,111 @@ func originOfFreeVar(v ssa.Value) (*ssa.FreeVar, bool) {
 }
 
 var _ = types.Typ
+
+// capturedValue: the one value ever stored to the variable a closure captures as fv — nil unless the variable is a
+// local of parent with exactly one store there and no store through any closure that captures it.
+func capturedValue(parent, cl *ssa.Function, fv *ssa.FreeVar) ssa.Value {
+	idx := -1
+	for k, x := range cl.FreeVars {
+		if x == fv {
+			idx = k
+		}
+	}
+	if idx < 0 {
+		return nil
+	}
+	var al *ssa.Alloc
+	n := 0
+	eachInstr(parent, func(i ssa.Instruction) {
+		if mc, ok := i.(*ssa.MakeClosure); ok && mc.Fn == ssa.Value(cl) {
+			n++
+			al, _ = mc.Bindings[idx].(*ssa.Alloc)
+		}
+	})
+	if n != 1 || al == nil {
+		return nil
+	}
+	var val ssa.Value
+	stores := 0
+	for _, ref := range *al.Referrers() {
+		switch x := ref.(type) {
+		case *ssa.Store:
+			if x.Addr != ssa.Value(al) {
+				return nil
+			}
+			stores++
+			val = x.Val
+		case *ssa.UnOp:
+			if x.Op != token.MUL {
+				return nil
+			}
+		case *ssa.MakeClosure:
+			fn := x.Fn.(*ssa.Function)
+			for k, b := range x.Bindings {
+				if b != ssa.Value(al) {
+					continue
+				}
+				for _, r2 := range *fn.FreeVars[k].Referrers() {
+					if u, ok := r2.(*ssa.UnOp); !ok || u.Op != token.MUL {
+						return nil
+					}
+				}
+			}
+		case *ssa.DebugRef:
+		default:
+			return nil
+		}
+	}
+	if stores != 1 {
+		return nil
+	}
+	return val
+}
+
+// isExactVariadicFlag: v is true exactly when the callback is variadic — Type.IsVariadic(), or that and-ed with
+// Kind() == reflect.Func (a phi whose constant-false edge is guarded by the kind test failing).
+func isExactVariadicFlag(v ssa.Value) bool {
+	isIV := func(x ssa.Value) bool {
+		c, ok := peel(x).(*ssa.Call)
+		return ok && c.Call.IsInvoke() && c.Call.Method.Name() == "IsVariadic" && strings.HasSuffix(c.Call.Value.Type().String(), "reflect.Type")
+	}
+	if isIV(v) {
+		return true
+	}
+	ph, ok := v.(*ssa.Phi)
+	if !ok {
+		return false
+	}
+	src := false
+	for k, e := range ph.Edges {
+		if isIV(e) {
+			src = true
+			continue
+		}
+		c, ok := e.(*ssa.Const)
+		if !ok || c.Value == nil || !isBool(c.Type()) || constant.BoolVal(c.Value) {
+			return false
+		}
+		// the false edge must come from the failing kind test
+		okEdge := false
+		pred := ph.Block().Preds[k]
+		if iff, ok := pred.Instrs[len(pred.Instrs)-1].(*ssa.If); ok && pred.Succs[1] == ph.Block() {
+			if b, ok := iff.Cond.(*ssa.BinOp); ok && b.Op == token.EQL {
+				for _, side := range [][2]ssa.Value{{b.X, b.Y}, {b.Y, b.X}} {
+					kc, ok1 := peel(side[0]).(*ssa.Call)
+					cc, ok2 := side[1].(*ssa.Const)
+					if ok1 && ok2 && kc.Call.IsInvoke() && kc.Call.Method.Name() == "Kind" && cc.Value != nil && cc.Int64() == int64(reflect.Func) {
+						okEdge = true
+					}
+				}
+			}
+		}
+		if !okEdge {
+			return false
+		}
+	}
+	return src
+}
 
 // derefAlloc: for a binding that is the address of a local, return a load-equivalent value (the alloc's stored values via origins).
 func derefAlloc(v ssa.Value) ssa.Value {
